@@ -1,32 +1,34 @@
 import PsyVerif.Model.OMP
 import PsyVerif.Lemmas.OMPSem
 import PsyVerif.Lemmas.MiniFSem
+import PsyVerif.Lemmas.OMPFine
+import PsyVerif.Lemmas.OMPInfer
+import PsyVerif.Lemmas.OMPStatic
 /-! # C09 — OpenMP-parallelised loops compute the serial result on any schedule
 
-`C09_partial`: for every loop, every clause lists, every store, every trip count and EVERY
-schedule (any number of threads, any assignment of iterations to threads, any order of the
-iterations): if the iterations are pairwise Bernstein-independent on shared locations
-(`IterIndep`, the guarantee the dependence analysis — property C08 — is supposed to give) and no
-iteration reads a privatised scalar before writing it (`ScalarsUnconditional`), the parallel run
-does not read an undefined private copy and leaves every shared location as the serial loop does.
+* `C09_partial`: for every loop, all clause lists, every store, every trip count and EVERY
+  whole-iteration schedule (any number of threads, any assignment of iterations to threads, any
+  order): if the iterations are pairwise Bernstein-independent on shared locations (`IterIndep`,
+  the guarantee the dependence analysis — property C08 — is supposed to give) and no iteration
+  reads a privatised variable before writing it (`ScalarsUnconditional`), the parallel run does
+  not read an undefined private copy and leaves every shared location as the serial loop does.
+* `C09_race_free_iteration_atomic`: the same for EVERY statement-granularity interleaving of the
+  threads (`execOMPfine`) — whole-iteration granularity is a theorem, not an assumption.
+* `C09_static_indep`, `C09_static_uncond`, `C09_static`, `C09_static_fine`: two static, store-free
+  checks (`staticIndepB`: distance 0 in the parallel variable for every written array, written
+  scalars privatised; `staticUncondB`: definite assignment of privatised variables) imply the two
+  hypotheses at every store, so for this class nothing is evaluated per input.
+* `C09_infer_sharing_spec`: what `infer_sharing_attributes` (`inferSharing`) guarantees.
+* The pinned code violates the full statement: `conditional_private_counterexample`,
+  `written_once_shared_counterexample` (both refute `C09_statement`), `intdiv_counterexample`.
 
-The pinned code violates the full statement: `conditional_private_counterexample`,
-`written_once_shared_counterexample` (both refute `C09_statement`), `intdiv_counterexample`. -/
+Trusted base specific to C09: the meaning of `private`/`firstprivate`/shared and of a thread's
+view as modelled by `execOMP`/`execOMPfine` (top-level statements of the body are atomic steps),
+sequential consistency (no weak-memory effects, no real timing), MiniF + exporter. -/
 namespace C09
 open MiniF
 
 /-! ## hypotheses -/
-
-/-- pairwise Bernstein independence of the iterations on shared locations (element level,
-dynamic footprints at the store on loop entry) -/
-def IterIndep (P : ParDo) (σ : Store) : Prop :=
-  ∀ k < P.trips σ, ∀ k' < P.trips σ, k ≠ k' → ∀ l ∈ (P.iterFp σ k).2, l.1 ∉ P.privs →
-    l ∉ (P.iterFp σ k').1 ∧ l ∉ (P.iterFp σ k').2
-
-/-- no iteration reads a privatised variable (other than the parallel loop's own variable)
-before it has written it -/
-def ScalarsUnconditional (P : ParDo) (σ : Store) : Prop :=
-  ∀ k < P.trips σ, ∀ l ∈ (P.iterFp σ k).1, l = (P.v, 0, 0) ∨ l.1 ∉ P.privs
 
 /-- the driver's Boolean check is the hypothesis of the theorem -/
 theorem iterIndepB_iff (P : ParDo) (σ : Store) : iterIndepB P σ = true ↔ IterIndep P σ := by
@@ -139,6 +141,22 @@ theorem serial_inv (P : ParDo) (σ₀ : Store) (hI : IterIndep P σ₀) (hS : Sc
     simp only [Int.zero_add]
     exact this.congr (fun j => by omega) (fun _ _ => rfl)
 
+/-- a store that holds the effect of all iterations agrees with the serial loop on shared locations -/
+theorem sharedEq_serial_of_inv (P : ParDo) (σ : Store) (hI : IterIndep P σ) (hS : ScalarsUnconditional P σ)
+    {ρ : Store} (invO : Inv P σ (fun j => j < P.trips σ) ρ) : SharedEq P.privs ρ (exec P.serial σ) := by
+  intro l hl
+  have invS := serial_inv P σ hI hS (P.trips σ) (Nat.le_refl _)
+  have hser : exec P.serial σ l =
+      iters (exec P.body) P.v (eval P.lo σ) (eval P.step σ) (P.trips σ) 0 σ l := by
+    simp only [ParDo.serial, exec, runIters_eq_iters, set_apply, if_neg (ne_v_of_shared P hl)]
+    rfl
+  rw [hser]
+  by_cases h : ∃ k, k < P.trips σ ∧ l ∈ (P.iterFp σ k).2
+  · obtain ⟨k, hk, hw⟩ := h
+    rw [(invO l hl).1 k hk hw, (invS l hl).1 k hk hw]
+  · have hn : ∀ k, k < P.trips σ → l ∉ (P.iterFp σ k).2 := fun k hk hw => h ⟨k, hk, hw⟩
+    rw [(invO l hl).2 hn, (invS l hl).2 hn]
+
 /-! ## the parallel loop -/
 
 /-- every thread's undefined copies are privatised variables -/
@@ -240,20 +258,52 @@ theorem C09_partial (P : ParDo) (σ : Store) (hI : IterIndep P σ) (hS : Scalars
       simp only [threadMem, List.lookup_nil, ParDo.undef0] at hx
       exact (List.mem_filter.mp hx).1)
     (fun k hk => ⟨(hmem k).mp hk, fun h => h⟩) hnd
-  refine ⟨s'.shared, by simp only [execOMP, e], fun l hl => ?_⟩
   have invO : Inv P σ (fun j => j < P.trips σ) s'.shared :=
     inv.congr (fun k => by simp [hmem k]) (fun _ _ => rfl)
-  have invS := serial_inv P σ hI hS (P.trips σ) (Nat.le_refl _)
-  have hser : exec P.serial σ l =
-      iters (exec P.body) P.v (eval P.lo σ) (eval P.step σ) (P.trips σ) 0 σ l := by
-    simp only [ParDo.serial, exec, runIters_eq_iters, set_apply, if_neg (ne_v_of_shared P hl)]
-    rfl
-  rw [hser]
-  by_cases h : ∃ k, k < P.trips σ ∧ l ∈ (P.iterFp σ k).2
-  · obtain ⟨k, hk, hw⟩ := h
-    rw [(invO l hl).1 k hk hw, (invS l hl).1 k hk hw]
-  · have hn : ∀ k, k < P.trips σ → l ∉ (P.iterFp σ k).2 := fun k hk hw => h ⟨k, hk, hw⟩
-    rw [(invO l hl).2 hn, (invS l hl).2 hn]
+  exact ⟨s'.shared, by simp only [execOMP, e], sharedEq_serial_of_inv P σ hI hS invO⟩
+
+/-- **Iteration granularity is not an assumption.**  In the finer semantics `execOMPfine` the
+threads interleave at the granularity of the top-level STATEMENTS of the loop body (each thread
+runs its iterations' statements in order, an `if` or an inner loop being one step; a fine
+schedule is any interleaving of the per-thread statement sequences, with any dynamic assignment
+of iterations to threads).  Under the same two hypotheses EVERY fine-grained interleaving:
+never reads an undefined private copy, and — once all iterations are complete — leaves the
+shared store exactly as the serial loop does, hence exactly as every whole-iteration schedule
+of `execOMP` does.  (Proved for all bodies of the form `seqs ss`, the form the exporter emits;
+the steps of different threads touch disjoint shared locations or only read them, which the
+invariant `FInvWith` captures without a commutation argument.) -/
+theorem C09_race_free_iteration_atomic (P : ParDo) (ss : List Stmt) (hb : P.body = seqs ss) (σ : Store)
+    (hI : IterIndep P σ) (hS : ScalarsUnconditional P σ) (events : List (Nat × Nat)) :
+    match execOMPfine P ss events σ with
+    | .poison => False
+    | .invalid => True
+    | .ok s => s.Complete (P.trips σ) →
+        SharedEq P.privs s.shared (exec P.serial σ) ∧
+        ∀ sched, ValidSched (P.trips σ) sched →
+          ∃ τ, execOMP P sched σ = some τ ∧ SharedEq P.privs s.shared τ := by
+  have h := runFine_inv P σ ss hb hI hS events _ ⟨_, init_inv P σ ss⟩
+  have e : execOMPfine P ss events σ = runFine P σ (progOf P σ ss) events
+      ⟨σ, [], fun k => if k < P.trips σ then progOf P σ ss k else [], fun _ => none⟩ := rfl
+  rw [e]
+  cases hr : runFine P σ (progOf P σ ss) events
+      ⟨σ, [], fun k => if k < P.trips σ then progOf P σ ss k else [], fun _ => none⟩ with
+  | poison => rw [hr] at h; exact h
+  | invalid => exact trivial
+  | ok s =>
+    rw [hr] at h
+    obtain ⟨pre, inv⟩ := h
+    intro hc
+    have hpre : ∀ k, k < P.trips σ → execList (pre k) σ = exec P.body (P.iterStore σ k) := by
+      intro k hk
+      have := inv.split k hk
+      rw [hc k hk, List.append_nil] at this
+      rw [← this, exec_progOf P σ ss hb]
+    have invO : Inv P σ (fun j => j < P.trips σ) s.shared := fun l hl =>
+      ⟨fun k hk hw => by rw [(inv.sh l hl).1 k hk hw, hpre k hk], fun hn => (inv.sh l hl).2 hn⟩
+    have hser := sharedEq_serial_of_inv P σ hI hS invO
+    refine ⟨hser, fun sched hv => ?_⟩
+    obtain ⟨τ, eτ, hτ⟩ := C09_partial P σ hI hS sched hv
+    exact ⟨τ, eτ, fun l hl => (hser l hl).trans (hτ l hl).symm⟩
 
 /-- the theorem for the clauses PSyclone infers (`annotate` = `infer_sharing_attributes`) -/
 theorem C09_partial_inferred (v : Nat) (lo hi step : Expr) (body : Stmt) (σ : Store)
@@ -275,6 +325,86 @@ theorem C09_iterations_commute (P : ParDo) (σ : Store) (hI : IterIndep P σ)
   obtain ⟨τ', e', h'⟩ := C09_partial P σ hI hS [(t', 1), (t, 0)]
     (by rw [h2]; show List.Perm [1, 0] (List.range 2); decide)
   exact ⟨τ, τ', e, e', fun l hl => (h l hl).trans (h' l hl).symm⟩
+
+/-- **What `infer_sharing_attributes` guarantees** (over the access sequence of
+`reference_accesses`), for every loop `L` and scalar `x`:
+* a scalar it makes `private` is written in the loop and its FIRST access is a write;
+* a scalar it makes `firstprivate` (or reports as needing synchronisation) is written in the loop;
+* a scalar whose first access is a READ and that the loop writes is never `private`: it is
+  `firstprivate` or reported as needing synchronisation (which makes lowering raise).
+(It does NOT guarantee that the write happens on every path — `conditional_private_counterexample`.) -/
+theorem C09_infer_sharing_spec (L : Stmt) (x : Nat) :
+    (x ∈ (inferSharing L).priv → x ∈ wvars L ∧ (scanStmt x L false {}).first = 2) ∧
+    (x ∈ (inferSharing L).fpriv ∨ x ∈ (inferSharing L).sync → x ∈ wvars L) ∧
+    (x ∈ stmtScalars L → (scanStmt x L false {}).first = 1 → 1 ≤ (scanStmt x L false {}).nwrite →
+      x ∉ (inferSharing L).priv ∧ (x ∈ (inferSharing L).fpriv ∨ x ∈ (inferSharing L).sync)) := by
+  have hok := scanStmt_ok x L false ScanOK.init
+  obtain ⟨_, _, hc, hn, hs⟩ := hok
+  have hw : ∀ d, classify L x = some d → x ∈ wvars L := by
+    intro d hd
+    apply Classical.byContradiction
+    intro hnw
+    have := scanStmt_decided_of_not_written x L false {} hnw
+    rw [(classify_eq L x d hd).1] at this
+    cases this
+  refine ⟨?_, ?_, ?_⟩
+  · intro hp
+    simp only [inferSharing, List.mem_filter, beq_iff_eq] at hp
+    exact ⟨hw 0 hp.2, (hs 0 (classify_eq L x 0 hp.2).1).2.2.1 rfl⟩
+  · intro hp
+    simp only [inferSharing, List.mem_filter, beq_iff_eq] at hp
+    rcases hp with hp | hp
+    · exact hw 1 hp.2
+    · exact hw 2 hp.2
+  · intro hx hf hwr
+    cases hd : (scanStmt x L false {}).decided with
+    | none => have := (hn hd).1; omega
+    | some d =>
+      obtain ⟨_, _, h0, h12, _⟩ := hs d hd
+      have hcl : classify L x = some d := by
+        have := hc hf
+        simp only [classify]
+        rw [if_neg (by omega)]
+        exact hd
+      have hmem : x ∈ (stmtScalars L).eraseDups := List.mem_eraseDups.mpr hx
+      simp only [inferSharing, List.mem_filter, beq_iff_eq, hcl, hmem, true_and, Option.some.injEq]
+      rcases h12 hf with h | h
+      · subst h; simp
+      · subst h; simp
+
+/-! ## static sufficient conditions: no per-input evaluation for the common class -/
+
+/-- **Static independence ⇒ `IterIndep` at every store.**  `staticIndepB`: every array written in
+the body has one subscript position that holds `v + c` (same `c`) in EVERY access to that array
+— distance 0 in the parallel variable — and every scalar written in the body is privatised. -/
+theorem C09_static_indep (P : ParDo) (h : staticIndepB P = true) : ∀ σ, IterIndep P σ :=
+  iterIndep_of_static P h
+
+/-- **Definite assignment ⇒ `ScalarsUnconditional` at every store.**  `staticUncondB`: on every
+path through the body a privatised variable is assigned before it is read (an `if` defines what
+both branches define, an inner loop defines only its own variable). -/
+theorem C09_static_uncond (P : ParDo) (h : staticUncondB P = true) : ∀ σ, ScalarsUnconditional P σ :=
+  scalarsUncond_of_static P h
+
+/-- For loops passing the two static checks the conclusion of `C09_partial` holds for all
+stores, all trip counts and all schedules without evaluating anything on the input … -/
+theorem C09_static (P : ParDo) (hi : staticIndepB P = true) (hu : staticUncondB P = true) (σ : Store)
+    (sched : List (Nat × Nat)) (hv : ValidSched (P.trips σ) sched) :
+    ∃ τ, execOMP P sched σ = some τ ∧ SharedEq P.privs τ (exec P.serial σ) :=
+  C09_partial P σ (C09_static_indep P hi σ) (C09_static_uncond P hu σ) sched hv
+
+/-- … and likewise for every statement-granularity interleaving. -/
+theorem C09_static_fine (P : ParDo) (ss : List Stmt) (hb : P.body = seqs ss)
+    (hi : staticIndepB P = true) (hu : staticUncondB P = true) (σ : Store) (events : List (Nat × Nat)) :
+    match execOMPfine P ss events σ with
+    | .poison => False
+    | .invalid => True
+    | .ok s => s.Complete (P.trips σ) → SharedEq P.privs s.shared (exec P.serial σ) := by
+  have h := C09_race_free_iteration_atomic P ss hb σ (C09_static_indep P hi σ) (C09_static_uncond P hu σ) events
+  cases hr : execOMPfine P ss events σ with
+  | poison => rw [hr] at h; exact h
+  | invalid => exact trivial
+  | ok s => rw [hr] at h; exact fun hc => (h hc).1
 
 /-! ## the full statement, and why the pinned code does not satisfy it -/
 
@@ -422,5 +552,60 @@ example : (inferSharing (.loop 0 (.lit 0) (.lit 1) (.lit 1)
 /-- a scalar read in the loop bounds and written in the body is firstprivate -/
 example : (inferSharing (.loop 0 (.lit 0) (.var 1) (.lit 1)
     (.seq (.assign 1 (.lit 3)) (.store1 3 (.var 0) (.var 1))))).fpriv = [1] := by decide
+
+/-! ### the fine-grained semantics, evaluated -/
+
+def FOut.at (o : FOut) (l : Loc) : Option Int :=
+  match o with
+  | .ok s => some (s.shared.get l)
+  | _ => none
+
+def FOut.isComplete (o : FOut) (n : Nat) : Bool :=
+  match o with
+  | .ok s => (List.range n).all fun k => (s.rem k).isEmpty
+  | _ => false
+
+/-- top-level statements of `goodBody` -/
+def goodStmts : List Stmt :=
+  [.assign 1 (.bin .add (.idx1 2 (.var 0)) (.lit 1)), .store1 3 (.var 0) (.bin .mul (.var 1) (.lit 2))]
+
+example : goodLoop.body = seqs goodStmts := by decide
+
+/-- threads 0 and 1 interleave the micro-steps of iterations 0 and 2 statement by statement,
+then thread 1 runs iteration 1: complete, and c = (42, 8, 2) as serially -/
+example :
+    let o := execOMPfine goodLoop goodStmts
+      [(0, 0), (1, 2), (1, 2), (0, 0), (1, 2), (0, 0), (1, 1), (1, 1), (1, 1)] condStore
+    o.isComplete 3 = true ∧ [o.at (3, 0, 0), o.at (3, 1, 0), o.at (3, 2, 0)] = [some 42, some 8, some 2] := by
+  decide
+
+/-- an event that is not enabled (thread 0 starts iteration 1 while in the middle of iteration 0) -/
+example : (execOMPfine goodLoop goodStmts [(0, 0), (0, 1)] condStore).at (3, 0, 0) = none := by decide
+
+/-- the conditional loop under the fine semantics: thread 1 runs iteration 1 between the
+statements of thread 0's iteration 0 and stores the stale firstprivate `t = 5` into `c(1)` -/
+example :
+    (execOMPfine (annotate 0 (.lit 0) (.lit 1) (.lit 1) condBody)
+      [.ite (.bin .gt (.idx1 2 (.var 0)) (.lit 10)) (.assign 1 (.idx1 2 (.var 0))) .skip,
+       .store1 3 (.var 0) (.var 1)]
+      [(0, 0), (1, 1), (0, 0), (1, 1), (1, 1), (0, 0)] condStore).at (3, 1, 0) = some 5 := by decide
+
+/-! ### the static checks, evaluated -/
+
+example : staticIndepB goodLoop = true ∧ staticUncondB goodLoop = true := by decide
+/-- the conditional loop fails definite assignment, the written-once and `i/2+1` loops fail static independence -/
+example : staticUncondB (annotate 0 (.lit 0) (.lit 1) (.lit 1) condBody) = false := by decide
+example : staticIndepB (annotate 0 (.lit 0) (.lit 1) (.lit 1) onceBody) = false := by decide
+example : staticIndepB intdivLoop = false := by decide
+/-- nest `do i; do j = 1, 3; m(j+1, i) = m(j, i) + b(j)` (m=5, j=4): distance 0 in `i` — statically independent;
+the wavefront `m(j+1, i) = m(j, i-1) + b(j)` is not -/
+example : staticIndepB (annotate 0 (.lit 2) (.lit 5) (.lit 1)
+    (.loop 4 (.lit 1) (.lit 3) (.lit 1)
+      (.store2 5 (.bin .add (.var 4) (.lit 1)) (.var 0)
+        (.bin .add (.idx2 5 (.var 4) (.var 0)) (.idx1 2 (.var 4)))))) = true := by decide
+example : staticIndepB (annotate 0 (.lit 2) (.lit 5) (.lit 1)
+    (.loop 4 (.lit 1) (.lit 3) (.lit 1)
+      (.store2 5 (.bin .add (.var 4) (.lit 1)) (.var 0)
+        (.bin .add (.idx2 5 (.var 4) (.bin .sub (.var 0) (.lit 1))) (.idx1 2 (.var 4)))))) = false := by decide
 
 end C09
